@@ -2,6 +2,8 @@
 package kit
 
 import (
+	"os"
+
 	"github.com/agglayer/aggkit/log"
 )
 
@@ -12,3 +14,11 @@ func Quiet() {
 
 // Logger returns a silent logger.
 func Logger() *log.Logger { return log.WithFields("module", "verif") }
+
+// ScratchBase is the directory scratch files go under: $VERIF_SCRATCH or /dev/shm.
+func ScratchBase() string {
+	if s := os.Getenv("VERIF_SCRATCH"); s != "" {
+		return s
+	}
+	return "/dev/shm"
+}
